@@ -276,8 +276,15 @@ CHECKS.update({
         'PolyCollection paths / array / clim and the Quiver X, Y, U, V and transforms are read back from the matplotlib '
         'artists for datasets with and without holes, variables by name or array with dimensions in any order, user array / '
         'clim / transform overrides, and a leftover dimension (must be refused); values are cell tags so a permutation '
-        'cannot hide.',
-        'Trusted: Coq kernel; model Export.v.  PARTIAL: matplotlib itself (rendering, transforms) is not modelled.',
+        'cannot hide.  Model PlotArgs.v holds what make_poly_collection / make_quiver draw or refuse as decided by their '
+        'arguments: C19_values_only_from_the_cells_grid, C19_leftover_dimension_refused, C19_other_grid_refused (a variable '
+        'on mesh nodes or edges is refused however many locations that grid has - the statement that exposed the defect '
+        'repaired by e11dbf7), C19_user_overrides, C19_quiver_components; per run every kind of variable (on the cells, on '
+        'another grid, with a leftover dimension, on no grid) x array / clim / transform supplied or not is put to both '
+        'functions and the outcome class compared with the model; a mesh with as many nodes as faces and cells wider than '
+        'half a turn are in every run.',
+        'Trusted: Coq kernel; models Export.v, PlotArgs.v (exceptions mapped to outcome classes by type and message).  '
+        'PARTIAL: matplotlib itself (rendering, transforms, its own colour autoscaling) is not modelled.',
         'DESIGN.md section 4 C19'),
 })
 
